@@ -805,7 +805,27 @@ def install_election(ex):
                         isinstance(cond.left, ast.Attribute) and cond.left.attr == 'topRank' and \
                         isinstance(cond.comparators[0], ast.Attribute) and cond.comparators[0].attr == 'cid':
                     return ('at', cond.comparators[0].value)
+                # `b.topRank in cids` with cids a one-element list of ids on this path: the sweep of that one candidate
+                if isinstance(cond, ast.Compare) and len(cond.ops) == 1 and isinstance(cond.ops[0], ast.In) and \
+                        isinstance(cond.left, ast.Attribute) and cond.left.attr == 'topRank':
+                    outs = ex.ev(cond.comparators[0], st.fork(), fr)
+                    if len(outs) == 1 and outs[0].kind == 'ok':
+                        items = C.concrete_items(outs[0].val, outs[0].st)
+                        if items is not None and len(items) == 1 and isinstance(items[0], SInt):
+                            return ('at-cid', items[0].t)
         return None
+
+    def swept_candidate(sw, st, fr):
+        "object id of the candidate whose ballots a recognised sweep visits (None when it cannot be named)"
+        if sw[0] == 'at-cid':
+            election_facts(ex, st)
+            cid_facts(st, sw[1])
+            st.note_ref(CAND, byCid(sw[1]))
+            return byCid(sw[1])
+        outs = ex.ev(sw[1], st.fork(), fr)
+        if len(outs) != 1 or outs[0].kind != 'ok' or not isinstance(outs[0].val, (SRef, SOpt)):
+            return None
+        return (outs[0].val.inner if isinstance(outs[0].val, SOpt) else outs[0].val).t
 
     def ledger_T(st):
         return ghost_get(st, 'T').t
@@ -882,10 +902,9 @@ def install_election(ex):
                      lambda st, it: z3.ForAll([c], z3.Select(C.heap_array(st, CAND, 'vote', 'val'), c) >= z3.Select(varr0, c)))]
             return invs, ax
         # sweep over the ballots standing with candidate X
-        outs = ex.ev(sw[1], pre.fork(), fr)
-        if len(outs) != 1 or outs[0].kind != 'ok' or not isinstance(outs[0].val, (SRef, SOpt)):
+        hc = swept_candidate(sw, pre, fr)
+        if hc is None:
             return [], None
-        hc = (outs[0].val.inner if isinstance(outs[0].val, SOpt) else outs[0].val).t
         v = z3.Select(varr0, hc)
         q = C.read_field(pre, SRef(repo.resolve(ELEC), THE_E), 'quota').t
         sname = z3.Const(fresh_name('surplus'), vs)
@@ -943,12 +962,11 @@ def install_election(ex):
             ex_head.assume(ghost_get(ex_head, 'Tm').t == z3.Select(C.heap_array(ex_head, ELEC, 'residual', 'val'), THE_E))
             return
         sw = sweep_of(s, pre, fr)
-        if sw is None or sw[0] != 'at':
+        if sw is None or sw[0] not in ('at', 'at-cid'):
             return
-        outs = ex.ev(sw[1], pre.fork(), fr)
-        if len(outs) != 1 or outs[0].kind != 'ok' or not isinstance(outs[0].val, (SRef, SOpt)):
+        hc = swept_candidate(sw, pre, fr)
+        if hc is None:
             return
-        hc = (outs[0].val.inner if isinstance(outs[0].val, SOpt) else outs[0].val).t
         b = z3.Int('b!es')
         ex.col.assumed.add('ledger: empty-sum lemma (no ballot stands with c  =>  G[c] == 0) (model)')
         none_left = z3.ForAll([b], z3.Implies(isBallot(b), top_of(C, ex_head, b) != hc))
